@@ -18,10 +18,12 @@ import (
 // Family "parse" (C01 C20): a byte stream, cut into read chunks by a scripted reader, is read
 // through one of the entry points.
 //
-// input : ( n<entry> (x<chunk> ...) ending stop (n<hasbuf> n<cap> z<max>) x<id0> )
+// input : ( n<entry> (x<chunk> ...) ending stop (n<hasbuf> n<cap> z<max>) x<id0> x<first> )
 //   entry  0 sse.Read(r, cfg)            cfg = nil if hasbuf=0 and max=0, else &ReadConfig{MaxEventSize: max}
 //          1 Connection (scripted http.RoundTripper, MaxRetries -1, SubscribeToAll, Connection.Buffer(buf, max))
-//          4 as 1, but the stream is the body of the connection's SECOND attempt (first response: empty body; MaxRetries 1)
+//          4 as 1, but the stream is the body of the connection's SECOND attempt.  The first response's body is <first>
+//            (one read, clean end): a stream that may set, change and reset the last event ID.  Its events are not part
+//            of the observation; what it leaves behind is the ID the stream under test must be interpreted with.
 //          2 read() as a Connection calls it (retry callback, EOF reported), initial last event ID id0
 //          3 read() as sse.Read calls it (no retry callback, EOF ignored), initial last event ID id0
 //            (2, 3: Parser.Buffer(buf, max) is called iff hasbuf=1 or max>0)
@@ -145,8 +147,9 @@ func execParse(in val.V) (out val.V) {
 		ctx, cancel := context.WithCancel(context.Background())
 		defer cancel()
 		rd.ctx, rd.cancel = ctx, cancel
-		// entry 4: the stream arrives on the SECOND attempt of the connection (the first response has an empty body),
-		// so that whatever Connection.Buffer configured must still be in force after a reconnect
+		// entry 4: the stream arrives on the SECOND attempt of the connection, so that whatever Connection.Buffer
+		// configured must still be in force after a reconnect and the last event ID is the one the first attempt left
+		first := in.At(6).Str()
 		attempts := 0
 		bo := sse.Backoff{MaxRetries: -1}
 		var secondErr error
@@ -172,7 +175,7 @@ func execParse(in val.V) (out val.V) {
 					return nil, context.Canceled
 				}
 				if entry == 4 && attempts == 1 {
-					return &http.Response{StatusCode: http.StatusOK, Body: io.NopCloser(strings.NewReader("")), Request: r, Header: http.Header{}}, nil
+					return &http.Response{StatusCode: http.StatusOK, Body: io.NopCloser(strings.NewReader(first)), Request: r, Header: http.Header{}}, nil
 				}
 				return &http.Response{StatusCode: http.StatusOK, Body: rd, Request: r, Header: http.Header{}}, nil
 			})},
@@ -183,7 +186,12 @@ func execParse(in val.V) (out val.V) {
 		req, _ := http.NewRequestWithContext(ctx, http.MethodGet, "http://verif.invalid/", http.NoBody)
 		conn := client.NewConnection(req)
 		conn.Buffer(buf, maxSize)
-		conn.SubscribeToAll(func(e sse.Event) { yields = append(yields, encEvent(e)) })
+		conn.SubscribeToAll(func(e sse.Event) {
+			if entry == 4 && attempts < 2 {
+				return // the first attempt's events are not the observation
+			}
+			yields = append(yields, encEvent(e))
+		})
 		err := conn.Connect()
 		if entry == 4 && secondErr != nil {
 			err = secondErr
@@ -234,11 +242,36 @@ func (pc parseCase) emit(c *Ctx) {
 		stop = val.L(val.Int(pc.stop))
 	}
 	entry := pc.entry
+	first := ""
 	if entry == 1 && c.R.Intn(3) == 0 {
 		entry = 4
+		if k := c.R.Intn(len(parseFirstBodies) + 3); k < len(parseFirstBodies) {
+			first = parseFirstBodies[k]
+		}
+		if first == "" {
+			c.Count("second-attempt:after-empty-body")
+		} else {
+			c.Count("second-attempt:after-events")
+		}
 	}
 	c.Emit(val.L(val.Int(entry), val.List(chunks), pc.ending, stop,
-		val.L(val.Bool(pc.hasBuf), val.Int(pc.capBuf), val.Z(pc.maxSize)), val.S(pc.id0)))
+		val.L(val.Bool(pc.hasBuf), val.Int(pc.capBuf), val.Z(pc.maxSize)), val.S(pc.id0), val.S(first)))
+}
+
+// bodies of a connection's first attempt (entry 4): what they do to the last event ID is for the model and the
+// specification to say - set, changed, reset by an empty id field, an id containing NUL, an id in an event that is
+// never dispatched, an id in an event that the end of the stream flushes
+var parseFirstBodies = []string{
+	"id: 5\ndata: a\n\nid\ndata: b\n\n",
+	"id: 5\ndata: a\n\n",
+	"id: 5\ndata: a\n\nid:\n\n",
+	"id: 7\r\n\r\n",
+	"id: 5\ndata: a\n\nid: x\x00y\ndata: b\n\n",
+	"id: 9\ndata: a\n\nid: 10\ndata: cut",
+	"id: 9\ndata: a\n\nid: 10\ndata: pending\n",
+	parseBOM + "id: b\rdata: x\r\r: c\r",
+	"data: no id\n\n",
+	"id: 1\n\nid: 2\n\nid\n\nid: prev id\ndata: z\n\n",
 }
 
 func parseEveryN(l, n int) []int {
